@@ -325,7 +325,7 @@ def run(ctx):
     for p, tabs in zip(fjobs, shapes):
         # (issue-14 has tables whose header lists skip some rows / columns: all of its tables are taken)
         for (si, ti, nr, nc) in tabs[: (2 if q and "issue-14" not in p else 12 if q else 40)]:
-            if nr * nc > 20000 or nr == 0:
+            if nr * nc > 20000 or nr == 0 or nr > 1500 or nc > 1500:   # (TLC reads the size vectors from JSON: very long ones overflow its stack)
                 continue
             jobs.append((k, p, si, ti, [{"op": "save"}, {"op": "reopen"}, {"op": "save"}], ctx.scratch))
             k += 1
